@@ -1,6 +1,9 @@
 package dna
 
 import (
+	"fmt"
+	"math"
+
 	"gonum.org/v1/gonum/mat"
 )
 
@@ -12,4 +15,49 @@ type DNAModel interface {
 	Eigens() (val []float64, leftvectors, rightvectors *mat.Dense, err error)
 	Analytical() bool                // returns true if analytical pij computation is possible and implemented
 	Pij(i, j int, l float64) float64 // Returns -1 if not possible to compute it anatically without eigens (or not yet implemented)
+}
+
+// reversibleEigens computes the eigen values and the left and right eigen
+// vectors of a reversible rate matrix q with stationary frequencies pi (>0)
+// through the symmetric matrix S = Pi^(1/2) Q Pi^(-1/2):
+// Q = (Pi^(-1/2) V) D (V^t Pi^(1/2)) with V orthonormal.
+//
+// A general decomposition followed by a numerical inversion of the right
+// eigen vectors does not work for repeated eigen values (F81, TN93 with
+// kappa1=kappa2=1, GTR with equal rates...): the eigen vectors it returns may be
+// linearly dependent, and the "inverse" is then meaningless.
+func reversibleEigens(q *mat.Dense, pi []float64) (val []float64, left, right *mat.Dense, err error) {
+	n := len(pi)
+	sq := make([]float64, n)
+	for i, p := range pi {
+		if !(p > 0) {
+			err = fmt.Errorf("frequencies must be positive")
+			return
+		}
+		sq[i] = math.Sqrt(p)
+	}
+	s := mat.NewSymDense(n, nil)
+	for i := 0; i < n; i++ {
+		for j := i; j < n; j++ {
+			// both expressions are equal for a reversible matrix (up to rounding)
+			s.SetSym(i, j, (sq[i]*q.At(i, j)/sq[j]+sq[j]*q.At(j, i)/sq[i])/2)
+		}
+	}
+	var es mat.EigenSym
+	if ok := es.Factorize(s, true); !ok {
+		err = fmt.Errorf("Problem during matrix decomposition")
+		return
+	}
+	val = es.Values(nil)
+	var v mat.Dense
+	es.VectorsTo(&v)
+	right = mat.NewDense(n, n, nil)
+	left = mat.NewDense(n, n, nil)
+	for i := 0; i < n; i++ {
+		for k := 0; k < n; k++ {
+			right.Set(i, k, v.At(i, k)/sq[i])
+			left.Set(k, i, v.At(i, k)*sq[i])
+		}
+	}
+	return
 }
